@@ -40,7 +40,7 @@ class SendData:
     uses = [SocketSendExt]
 
     def inputs():
-        return {"self": Obj(TcpClientConnection, _sock=Obj(AbsSocket, wire=Bytes())), "data": Bytes()}
+        return {"self": Obj(TcpClientConnection, _sock=Obj(AbsSocket, wire=Bytes()), _disconnecting=Bool, _stop_thread=Bool), "data": Bytes()}
 
     def raises():
         return {}
@@ -98,7 +98,10 @@ class SendData:
     def inv_select():
         return True
 
-    loops = {1: Loop(a=inv_outer, modifies=["self._sock.wire"]), 2: Loop(a=inv_select)}
+    # the two flags read while waiting for a writable socket belong to other threads (disconnect(), the receiver thread): any
+    # value at every iteration
+    loops = {1: Loop(a=inv_outer, modifies=["self._sock.wire", "self._disconnecting", "self._stop_thread"]),
+             2: Loop(a=inv_select, modifies=["self._disconnecting", "self._stop_thread"])}
 
 
 # =============================================================================================== HSMS send queue (O58)
